@@ -249,10 +249,13 @@ def socElH (e : SocEl) : List GTok :=
   ite' e.text ([o "td", o (if e.href then "a" else "span"), t, c (if e.href then "a" else "span"), c "td"]) ++
   [c "tr", c "tbody", c "table"]
 
-/-- … vertical mode: one row per element, the icon never linked, the text always in a `<span>` -/
+/-- … vertical mode: one row per element; the element's link is kept around the icon and around the text (4b4caac follow-up:
+    before the repair the link was dropped in this mode) -/
 def socElV (e : SocEl) : List GTok :=
-  [o "tr", o "td", o "table", o "tbody", o "tr", o "td", v "img", c "td", c "tr", c "tbody", c "table", c "td"] ++
-  ite' e.text [o "td", o "span", t, c "span", c "td"] ++ [c "tr"]
+  [o "tr", o "td", o "table", o "tbody", o "tr", o "td"] ++
+  (if e.href then [o "a", v "img", c "a"] else [v "img"]) ++
+  [c "td", c "tr", c "tbody", c "table", c "td"] ++
+  ite' e.text [o "td", o (if e.href then "a" else "span"), t, c (if e.href then "a" else "span"), c "td"] ++ [c "tr"]
 
 def socSep : List GTok := [.co, c "td", o "td", .cc]
 
